@@ -1,4 +1,4 @@
 SPECIFICATION Spec
-CONSTANTS MaxJobs = 3  MaxFail = 1  GenDepth = 80  WeakDeps = FALSE  WeakOnce = FALSE  WeakBound = FALSE
+CONSTANTS MaxJobs = 3  MaxFail = 1  GenDepth = 80  WeakDeps = FALSE  WeakOnce = FALSE  WeakBound = FALSE  Dags = {1, 2, 3, 4, 5, 6, 7}
 INVARIANT GenPrint
 CHECK_DEADLOCK FALSE
